@@ -84,6 +84,7 @@ class LoopBody(X.SegmentVC):
     # ------------------------------------------------------------------ specs of the callees
     def configure(self, I):
         X.install_string_specs(I, patterns=[L.whitespace_re])
+        I.feas_timeout = 120  # an undecided feasibility check keeps the path (sound); the reachability filter runs later
         c = self
         sh = self.shape
 
@@ -212,6 +213,16 @@ class LoopBody(X.SegmentVC):
             for s, needle, r in out.st.ghost.get("rfind", ()):
                 if needle == "\n" and s.eq(self.orig[0]):
                     out_l += [self.K == r + 1, z3.Contains(self.orig[0], X.NL) == (r >= 0)]
+            g = self.local(out, self.R.groups)
+            if isinstance(g, Ref):
+                g0 = to_term(out.st.get(g).items[0], "str")
+                T = self.orig[0]
+                # facts about the kept text that follow from its term structure alone (a slice / strip of the text)
+                out_l += [z3.PrefixOf(g0, T), g0 == z3.SubString(T, 0, z3.Length(g0))]
+                for s, needle, r in out.st.ghost.get("rfind", ()):
+                    if needle == "\n" and s.eq(T):
+                        out_l += [z3.Or(z3.Length(g0) == r + 1, g0 == T), z3.Length(g0) == r + 1,
+                                  X.suffix_from(T, z3.Length(g0)) == X.suffix_from(T, r + 1)]
         return out_l
 
     # ------------------------------------------------------------------ postconditions
@@ -261,12 +272,21 @@ class LoopBody(X.SegmentVC):
         conj = []
         n = len(self.orig)
         vals = {i: to_term(y[2], "str") for i, y in zip(idx, ys)}
+        gfinal = self.local(out, self.R.groups) if isinstance(self.shape.tokens, tuple) else None
+        if isinstance(gfinal, Ref):
+            gfinal = out.st.get(gfinal).items
         for i in range(n):
-            piece = vals.get(i, EMPTY)  # a suppressed token must be an empty one
+            if i in vals:
+                piece = vals[i]
+            elif gfinal is not None and i < len(gfinal) and gfinal[i] is not None:
+                piece = to_term(gfinal[i], "str")  # a suppressed token must be an empty one
+                conj.append(piece == EMPTY)
+            else:
+                piece = EMPTY
             if i == 0 and self.shape.lstrip:
                 T = self.orig[0]
                 conj.append(z3.PrefixOf(piece, T))
-                conj.append(z3.InRe(X.suffix_from(T, z3.Length(piece)), X.WS_STAR))
+                conj.append(X.all_ws(X.suffix_from(T, z3.Length(piece))))
                 conj.append(X.left_spec(T, self.sign, self.lstrip.t, self.is_var, self.line_starting.t, self.K, piece))
             else:
                 conj.append(piece == self.orig[i])
@@ -276,7 +296,9 @@ class LoopBody(X.SegmentVC):
         """line_starting' == the match ended with a line break"""
         if out.kind != "break":
             return None
-        return to_term(self.local(out, self.R.line_starting), "bool") == z3.SuffixOf(X.NL, self.M)
+        n = z3.Length(self.M)
+        ends_line = z3.And(n >= 1, X.char_at(self.M, n - 1) == X.NL)  # the last character of the match is a line break
+        return to_term(self.local(out, self.R.line_starting), "bool") == ends_line
 
     def offsets(self):
         """start offset (within the match) of each top-level piece"""
@@ -432,9 +454,649 @@ def loop_tasks(clauses, prefix):
     return ts
 
 
-LOSSLESS_TASKS = loop_tasks(("lossless",), "C39.lossless")
-LINENO_TASKS = loop_tasks(("lineno",), "C39.lineno")
+# ====================================================================== segments INIT and END
 
-TASKS = LOSSLESS_TASKS + LINENO_TASKS
 
-META = {"level": "other", "explanation": "", "assumptions": [], "trusted_base": []}
+def preamble_end(P):
+    """index in P['pre'] of the first statement after the preamble (= after the last assignment to `source`)"""
+    import ast
+    R = P["roles"]
+    last = -1
+    for k, stt in enumerate(P["pre"]):
+        if isinstance(stt, ast.Assign) and any(isinstance(t, ast.Name) and t.id == R.source for t in stt.targets):
+            last = k
+    return last + 1
+
+
+class LoopInit(X.SegmentVC):
+    """The statements between the preamble and the `while`: the invariant holds on entry."""
+    prop = PROP
+    target = "jinja2.lexer:Lexer.tokeniter"
+
+    def __init__(self, state):
+        self.state = state
+        super().__init__(PROP, f"C39.tokeniter.init[state={state!r}]")
+
+    def segment(self):
+        P = X.tokeniter_parts()
+        self.R = P["roles"]
+        return P["pre"][preamble_end(P):], P["fn"], P["module"], "Lexer.tokeniter"
+
+    def configure(self, I):
+        I.specs["FakeRules.__getitem__"] = A.abstract_fn("rules.__getitem__", returns="obj")
+
+    def setup(self, I, st):
+        R = X.tokeniter_parts()["roles"]
+        self.source = sym("source", "str")
+        rules = st.alloc(HObj(FakeRules, path="rules"), initial=True)
+        lexer = st.alloc(HObj(L.Lexer, fields={"rules": rules}, path="self"), initial=True)
+        return {R.self: lexer, R.source: self.source, R.state: self.state, R.name: sym("name", "obj"), R.filename: sym("filename", "obj")}
+
+    def p_entry(self, pre, out):
+        """pos = 0, lineno = 1 (= 1 + the number of line breaks before position 0), nothing pending, the start of the source
+        is the start of a line, source_length = len(source), brackets balanced, the state stack starts at root"""
+        R = self.R
+        if self.state not in (None, "root", "variable", "block"):
+            return out.kind == "raise" and out.value.cls is AssertionError
+        if out.kind != "ok":
+            return False
+        loc = lambda n: self.local(out, n)
+        bal = out.st.get(loc(R.balancing_stack)) if isinstance(loc(R.balancing_stack), Ref) else None
+        stack = out.st.get(loc(R.stack)) if isinstance(loc(R.stack), Ref) else None
+        want_stack = ["root"] + ([self.state + "_begin"] if self.state not in (None, "root") else [])
+        calls = A.calls(out, "rules.__getitem__")
+        ok = (loc(R.pos) == 0 and loc(R.lineno) == 1 and loc(R.newlines_stripped) == 0 and loc(R.line_starting) is True
+              and bal is not None and bal.concrete and bal.items == [] and stack is not None and stack.concrete and stack.items == want_stack
+              and len(calls) == 1 and calls[0].args[1] == want_stack[-1] and loc(R.statetokens) is calls[0].result)
+        if not ok:
+            return False
+        return to_term(loc(R.source_length), "int") == z3.Length(self.source.t)
+
+    posts = [("entry_invariant", p_entry)]
+
+    def concretize(self, model, pre, out):
+        return {"state": self.state}
+
+    def replay(self, w):
+        return replay_loop({"family": "default", "lstrip_blocks": False, "line_starting": True})
+
+
+class LoopEnd(X.SegmentVC):
+    """The for-else (no rule matched at pos): returns only at the end of the working source, else TemplateSyntaxError."""
+    prop = PROP
+    target = "jinja2.lexer:Lexer.tokeniter"
+
+    def __init__(self):
+        super().__init__(PROP, "C39.tokeniter.end")
+
+    def segment(self):
+        P = X.tokeniter_parts()
+        self.R = P["roles"]
+        return P["at_end"], P["fn"], P["module"], "Lexer.tokeniter"
+
+    def setup(self, I, st):
+        R = X.tokeniter_parts()["roles"]
+        self.source, self.pos = sym("source", "str"), sym("pos", "int")
+        st.assume(0 <= self.pos.t, self.pos.t <= z3.Length(self.source.t))
+        return {R.source: self.source, R.pos: self.pos, R.source_length: Sym(z3.Length(self.source.t), "int"),
+                R.lineno: sym("lineno", "int"), R.name: sym("name", "obj"), R.filename: sym("filename", "obj")}
+
+    def p_complete(self, pre, out):
+        """normal termination only when everything was consumed (pos = len(source)); otherwise a TemplateSyntaxError; nothing yielded"""
+        if out.st.yields:
+            return False
+        if out.kind == "return":
+            return self.pos.t == z3.Length(self.source.t)
+        if out.kind == "raise":
+            return out.value.cls is TemplateSyntaxError
+        return False
+
+    posts = [("returns_only_at_end", p_complete)]
+
+    def concretize(self, model, pre, out):
+        return {"source": X.mstr(model, self.source.t), "pos": model_value(model, self.pos.t)}
+
+    def replay(self, w):
+        return replay_loop({"family": "default", "lstrip_blocks": False, "line_starting": True})
+
+
+def loop_frame(task, tier, seed):
+    """structural side conditions of the segment decomposition: inside the `while`, `source` and `source_length` are never
+    re-assigned, pos is assigned only from m.end(), and the loop body consists of the rule `for` alone"""
+    import ast
+    t0 = time.time()
+    P = X.tokeniter_parts()
+    R = P["roles"]
+    stores = {}
+    for n in ast.walk(P["loop"]):
+        if isinstance(n, ast.Name) and isinstance(n.ctx, ast.Store):
+            stores.setdefault(n.id, []).append(n.lineno)
+    out = []
+    bad = [k for k in (R.source, R.source_length, R.self) if k in stores]
+    out.append(Res("C39.tokeniter.frame.source_fixed", "discharged" if not bad else "refuted", "ast", time.time() - t0,
+                   f"assigned inside the loop: {bad}" if bad else "source / source_length / self are not assigned inside the loop", "table",
+                   None if not bad else {"assigned": bad}))
+    only_for = len(P["loop"].body) == 1 and P["loop"].body[0] is P["rule_for"] and isinstance(P["loop"].test, ast.Constant) and P["loop"].test.value is True
+    out.append(Res("C39.tokeniter.frame.loop_is_rule_for", "discharged" if only_for else "unknown", "ast", time.time() - t0,
+                   "the `while True` body is exactly the rule loop with its else-branch", "table"))
+    return out
+
+
+def states_closed(task, tier, seed):
+    """table: every state the loop can push (named groups of the root rule, explicit new_state strings) is a key of
+    lexer.rules; '#pop' only occurs in non-root states (the abstraction of the state stack in the BODY VCs makes no claim
+    about it; this is the fact it would need)"""
+    out = []
+    for cname, kw in RF.delimiter_families().items():
+        t0 = time.time()
+        lx = RF.lexer_for(kw)
+        keys = set(lx.rules)
+        bad = []
+        for state, rules in lx.rules.items():
+            for i, r in enumerate(rules):
+                if r.command == "#bygroup":
+                    bad += [f"{state}[{i}] may push {n!r}" for n in r.pattern.groupindex if n not in keys]
+                elif r.command == "#pop":
+                    if state == "root":
+                        bad.append(f"root[{i}] pops")
+                elif r.command is not None and r.command not in keys:
+                    bad.append(f"{state}[{i}] pushes {r.command!r}")
+        out.append(Res(f"C39.states.closed[{cname}]", "discharged" if not bad else "refuted", "table", time.time() - t0,
+                       "; ".join(bad) or "every pushed state is a key of lexer.rules; root never pops", "table", None if not bad else {"config": kw, "bad": bad}))
+    return out
+
+
+# ====================================================================== C39.env.lex
+
+import jinja2.environment as E  # noqa: E402
+
+py_str_of = None
+
+
+class EnvLex(VC):
+    """Environment.lex returns the lexer's tokeniter of str(source): one call, same name/filename, no preprocessing."""
+    prop = PROP
+    target = "jinja2.environment:Environment.lex"
+
+    def __init__(self):
+        super().__init__(PROP, "C39.env.lex")
+
+    def configure(self, I):
+        I.specs["Lexer.tokeniter"] = A.abstract_fn("Lexer.tokeniter", returns="obj", raises=(TemplateSyntaxError,))
+        I.specs["Lexer.tokenize"] = A.abstract_fn("Lexer.tokenize", returns="obj")
+        I.specs["Environment.preprocess"] = A.abstract_fn("Environment.preprocess", returns="str")
+        I.specs["Environment._tokenize"] = A.abstract_fn("Environment._tokenize", returns="obj")
+        I.specs["Environment.iter_extensions"] = A.abstract_fn("Environment.iter_extensions", returns="obj")
+
+        def handle_exception(I_, st, args, kwargs, node):
+            # documented NoReturn: re-raises the current exception (rewritten traceback)
+            e = Exc(TemplateSyntaxError, (), tag="handle_exception", origin=getattr(node, "lineno", None))
+            A.call_event(st, "Environment.handle_exception", args, kwargs, e, node)
+            return [(st, Raised(e))]
+
+        I.specs["Environment.handle_exception"] = handle_exception
+
+    def setup(self, I, st):
+        self.lexer = st.alloc(HObj(L.Lexer, path="lexer"), initial=True)
+        self.env = st.alloc(HObj(E.Environment, fields={"lexer": self.lexer}, path="self"), initial=True)
+        self.source, self.name_, self.filename = sym("source", "obj"), sym("name", "obj"), sym("filename", "obj")
+        return [self.env, self.source, self.name_, self.filename], {}
+
+    def p_lex(self, pre, out):
+        calls = [e for e in out.st.trace if e.kind == "call"]
+        tk = [e for e in calls if e.name == "Lexer.tokeniter"]
+        others = [e.name for e in calls if e.name not in ("Lexer.tokeniter", "Environment.handle_exception")]
+        if others or len(tk) != 1:
+            return False
+        a = tk[0].args
+        if len(a) != 4 or a[0] != self.lexer or a[2] is not self.name_ or a[3] is not self.filename or tk[0].kwargs:
+            return False
+        from pyvc.models import py_str_obj
+        is_str = isinstance(a[1], Sym) and a[1].k == "str" and z3.simplify(a[1].t == py_str_obj(self.source.t))
+        if not (is_str is not False and z3.is_true(is_str)):
+            return False
+        if out.kind == "return":
+            return out.value is tk[0].result
+        # a TemplateSyntaxError raised while creating the generator goes through handle_exception(source=str(source))
+        he = [e for e in calls if e.name == "Environment.handle_exception"]
+        return out.kind == "raise" and len(he) == 1
+
+    posts = [("tokeniter_of_str_source", p_lex)]
+
+    def concretize(self, model, pre, out):
+        return {}
+
+    def replay(self, w):
+        return replay_env_lex(w)
+
+
+def replay_env_lex(w):
+    """natively: Environment.lex(source) yields exactly what lexer.tokeniter(str(source)) yields, for str and non-str
+    sources, with an extension whose preprocess would change the source installed (it must NOT be applied)"""
+    from jinja2.ext import Extension
+
+    class Shout(Extension):
+        def preprocess(self, source, name, filename=None):
+            return source.upper()
+
+    class Src:
+        def __str__(self):
+            return "a {{ b }}\n{# c #}"
+
+    env = jinja2.Environment(extensions=[Shout])
+    bad = []
+    for src in ("x {{ y }}\n{% raw %} z {% endraw %}", Src()):
+        got = list(env.lex(src, "n", "f"))
+        want = list(env.lexer.tokeniter(str(src), "n", "f"))
+        if got != want:
+            bad.append((str(src), got[:3], want[:3]))
+    return (bool(bad), f"Environment.lex differs from lexer.tokeniter(str(source)): {bad}" if bad else "Environment.lex == tokeniter(str(source))")
+
+
+# ====================================================================== C39.comment_finder
+
+import jinja2.ext as EXT  # noqa: E402
+from pyvc.stmts import LoopSpec  # noqa: E402
+from pyvc.values import SSeq, fresh_arr  # noqa: E402
+
+S_, I_, B_ = z3.StringSort(), z3.IntSort(), z3.BoolSort()
+f_has2 = z3.Function("split_has_two_fields", S_, B_)  # v.split(None, 1) has two fields
+f_first = z3.Function("split_first_field", S_, S_)
+f_rest = z3.Function("split_rest", S_, S_)
+f_rstrip = z3.Function("py_rstrip", S_, S_)
+TOK_KIND = ("int", "str", "str")
+
+
+def abstract_seq_specs(I):
+    """enumerate / reversed over a list of symbolic length (array encodings)"""
+    prev_rev = I.specs.get(("fn", id(reversed)))
+    prev_enum = I.specs.get(("fn", id(enumerate)))
+
+    def as_sseq(st, a):
+        if isinstance(a, SSeq):
+            return a
+        if isinstance(a, Ref) and isinstance(st.get(a), HList) and not st.get(a).concrete:
+            h = st.get(a)
+            return SSeq(h.arr, h.n, h.k)
+        return None
+
+    def reversed_h(I_x, st, args, kwargs, node):
+        sq = as_sseq(st, args[0])
+        if sq is not None:
+            return prev_rev(I_x, st, [sq], kwargs, node)
+        return prev_rev(I_x, st, args, kwargs, node)
+
+    def enumerate_h(I_x, st, args, kwargs, node):
+        sq = as_sseq(st, args[0])
+        if sq is None or len(args) > 1 or kwargs:
+            if prev_enum is not None:
+                return prev_enum(I_x, st, args, kwargs, node)
+            raise Unsupported("enumerate", node)
+        idx = fresh_arr("enum_idx", "int")
+        j = z3.Int(fresh_name("j"))
+        st.assume(z3.ForAll([j], z3.Select(idx, j) == j))
+        return [(st, SSeq((idx, sq.arr), sq.n, ("int", sq.k)))]
+
+    I.specs[("fn", id(reversed))] = reversed_h
+    I.specs[("fn", id(enumerate))] = enumerate_h
+
+
+class FinderBase(VC):
+    prop = PROP
+
+    def mk_finder(self, st):
+        self.tokens = A.alist(st, "tokens", TOK_KIND)
+        h = st.get(self.tokens)
+        (self.LN, self.TY, self.VAL), self.N = h.arr, h.n
+        self.tags = A.alist(st, "comment_tags", "str")
+        ht = st.get(self.tags)
+        self.TAGS, self.NT = ht.arr, ht.n
+        self.off0 = sym("self.offset", "int")
+        self.last = sym("self.last_lineno", "int")
+        st.assume(0 <= self.off0.t, self.off0.t <= self.N)
+        self.finder = st.alloc(HObj(EXT._CommentFinder, fields={"tokens": self.tokens, "comment_tags": self.tags, "offset": self.off0,
+                                                               "last_lineno": self.last}, path="self"), initial=True)
+
+    def in_tags(self, p):
+        t = z3.Int(fresh_name("t"))
+        return z3.Exists([t], z3.And(0 <= t, t < self.NT, z3.Select(self.TAGS, t) == p))
+
+    def tagged(self, i):
+        """token i is a translator comment: a comment / line comment whose first field is one of the comment tags"""
+        ty, v = z3.Select(self.TY, i), z3.Select(self.VAL, i)
+        return z3.And(z3.Or(ty == z3.StringVal("comment"), ty == z3.StringVal("linecomment")), f_has2(v), self.in_tags(f_first(v)))
+
+
+class FindComments(FinderBase):
+    """find_comments(l) = find_backwards(j), j = index of the first not-yet-consumed token whose line is past l (all tokens if
+    none); [] without searching when no comment tags are configured."""
+    target = "jinja2.ext:_CommentFinder.find_comments"
+
+    def __init__(self):
+        super().__init__(PROP, "C39.comment_finder.find_comments")
+
+    def configure(self, I):
+        abstract_seq_specs(I)
+        I.specs["_CommentFinder.find_backwards"] = A.abstract_fn("find_backwards", returns="obj")
+        c = self
+
+        def inv(ctx):
+            # the k not-yet-consumed tokens scanned so far are on lines <= l (stated on the token list itself)
+            i = z3.Int(fresh_name("i"))
+            return [z3.ForAll([i], z3.Implies(z3.And(c.off0.t <= i, i < c.off0.t + ctx.k), z3.Select(c.LN, i) <= c.l.t))]
+
+        I.loops[("_CommentFinder.find_comments", 0)] = LoopSpec(inv, havoc={"idx": "int", "token_lineno": "int", "_": "str"}, name="scan")
+
+    def setup(self, I, st):
+        self.mk_finder(st)
+        self.l = sym("lineno", "int")
+        return [self.finder, self.l], {}
+
+    def p_result(self, pre, out):
+        if out.raised:
+            return False
+        calls = A.calls(out, "find_backwards")
+        skip = z3.Or(self.NT == 0, self.last.t > self.l.t)
+        if not calls:
+            r = out.value
+            empty = isinstance(r, Ref) and isinstance(out.st.get(r), HList) and out.st.get(r).concrete and out.st.get(r).items == []
+            return skip if empty else False
+        if len(calls) != 1 or out.value is not calls[0].result or calls[0].args[0] != self.finder:
+            return False
+        j = to_term(calls[0].args[1], "int")
+        i = z3.Int(fresh_name("i"))
+        return z3.And(z3.Not(skip), self.off0.t <= j, j <= self.N,
+                      z3.Or(j == self.N, z3.Select(self.LN, j) > self.l.t),
+                      z3.ForAll([i], z3.Implies(z3.And(self.off0.t <= i, i < j), z3.Select(self.LN, i) <= self.l.t)))
+
+    def p_frame(self, pre, out):
+        return (self.finder.id, "offset") not in out.st.written and (self.finder.id, "last_lineno") not in out.st.written
+
+    posts = [("first_token_past_the_line", p_result), ("no_state_change_of_its_own", p_frame)]
+
+    def concretize(self, model, pre, out):
+        return finder_witness(self, model, model_value(model, self.l.t))
+
+    def replay(self, w):
+        return replay_finder(w)
+
+
+class FindBackwards(FinderBase):
+    """find_backwards(offset): the nearest translator comment before `offset` among the tokens not yet consumed
+    (self.offset <= i < offset), its text after the tag right-stripped; [] if none; self.offset = offset afterwards."""
+    target = "jinja2.ext:_CommentFinder.find_backwards"
+
+    def __init__(self):
+        super().__init__(PROP, "C39.comment_finder.find_backwards")
+
+    def configure(self, I):
+        abstract_seq_specs(I)
+        c = self
+
+        def split_h(I_x, st, args, kwargs, node):
+            recv = args[0]
+            if len(args) != 3 or args[1] is not None or args[2] != 1:
+                raise Unsupported("str.split: only split(None, 1) is specified", node)
+            from pyvc import models
+            models.used("str.split(None, 1) [two fields (first word, rest) or fewer; uninterpreted]")
+            v = to_term(recv, "str")
+            out = []
+            for s1, b in I_x.fork_bool(st, f_has2(v)):
+                out.append((s1, (Sym(f_first(v), "str"), Sym(f_rest(v), "str")) if b else (recv,)))
+            return out
+
+        I.specs["str.split"] = split_h
+        keep = []
+
+        def hook(I_x, st, obj, name, node):
+            if isinstance(obj, Sym) and obj.k == "str" and name == "rstrip":
+                stub = X.HostStub("str.rstrip")
+                keep.append(stub)
+                I_x.specs[("fn", id(stub))] = lambda I_y, s, a, k, n, o=obj: [(s, Sym(f_rstrip(o.t), "str"))]
+                return [(st, stub)]
+            return None
+
+        I.attr_hook = hook
+        I._keep_stubs = keep
+
+        def inv(ctx):
+            # the k tokens looked at so far (from `offset` downwards) are not translator comments
+            i = z3.Int(fresh_name("i"))
+            return [z3.ForAll([i], z3.Implies(z3.And(c.offset.t - ctx.k <= i, i < c.offset.t), z3.Not(c.tagged(i))))]
+
+        I.loops[("_CommentFinder.find_backwards", 0)] = LoopSpec(
+            inv, havoc={"_": "int", "token_type": "str", "token_value": "str", "prefix": "str", "comment": "str"}, name="backwards")
+
+    def setup(self, I, st):
+        self.mk_finder(st)
+        self.offset = sym("offset", "int")
+        st.assume(self.off0.t <= self.offset.t, self.offset.t <= self.N)
+        return [self.finder, self.offset], {}
+
+    def p_result(self, pre, out):
+        if out.raised:
+            return False
+        r = out.value
+        if not (isinstance(r, Ref) and isinstance(out.st.get(r), HList) and out.st.get(r).concrete):
+            return False
+        items = out.st.get(r).items
+        i = z3.Int(fresh_name("i"))
+        lo, hi = self.off0.t, self.offset.t
+        if not items:
+            return z3.ForAll([i], z3.Implies(z3.And(lo <= i, i < hi), z3.Not(self.tagged(i))))
+        if len(items) != 1:
+            return False
+        j = z3.Int(fresh_name("j"))
+        return z3.Exists([j], z3.And(lo <= j, j < hi, self.tagged(j), to_term(items[0], "str") == f_rstrip(f_rest(z3.Select(self.VAL, j))),
+                                     z3.ForAll([i], z3.Implies(z3.And(j < i, i < hi), z3.Not(self.tagged(i))))))
+
+    def p_consumed(self, pre, out):
+        """afterwards self.offset == offset on every exit (the tokens before it are consumed)"""
+        v = out.st.get(self.finder).fields.get("offset")
+        return v is self.offset
+
+    posts = [("nearest_tagged_comment_before_offset", p_result), ("offset_advanced", p_consumed)]
+
+    def concretize(self, model, pre, out):
+        return finder_witness(self, model, None, model_value(model, self.offset.t))
+
+    def replay(self, w):
+        return replay_finder(w)
+
+
+def finder_witness(c, model, lineno=None, offset=None):
+    return {"note": "solver model over uninterpreted split/rstrip; the native replay runs the exhaustive small-case comparison instead",
+            "lineno": lineno, "offset": offset}
+
+
+def spec_find_comments(tokens, tags, offset, lineno):
+    """Executable statement (own words): -> (comments, new offset).  The tagged comment nearest before the first
+    not-yet-consumed token whose line is past `lineno`; only tokens from `offset` on are searched; those up to the found
+    position are consumed."""
+    if not tags:
+        return [], offset
+    j = len(tokens)
+    for i in range(offset, len(tokens)):
+        if tokens[i][0] > lineno:
+            j = i
+            break
+    found = []
+    for i in range(j - 1, offset - 1, -1):
+        ln, ty, val = tokens[i]
+        if ty in ("comment", "linecomment"):
+            fields = val.split(None, 1)
+            if len(fields) == 2 and fields[0] in tags:
+                found = [fields[1].rstrip()]
+                break
+    return found, j
+
+
+def finder_cases(limit_len):
+    import itertools
+    vals = [("comment", "NOTE: a "), ("comment", "other b"), ("linecomment", "NOTE: c"), ("data", "NOTE: d"), ("comment", "NOTE:")]
+    for n in range(0, limit_len + 1):
+        for kinds in itertools.product(range(len(vals)), repeat=n):
+            for lines in itertools.product((1, 2, 3), repeat=n):
+                if list(lines) != sorted(lines):
+                    continue
+                yield [(ln, vals[k][0], vals[k][1]) for ln, k in zip(lines, kinds)]
+
+
+def run_finder_case(tokens, tags, queries):
+    f = EXT._CommentFinder(tokens, tags)
+    off = 0
+    for l in queries:
+        got = f.find_comments(l)
+        want, off2 = spec_find_comments(tokens, tags, off, l)
+        if got != want or (tags and f.offset != off2):
+            return f"tokens={tokens} tags={tags} queries={queries}: find_comments({l}) -> {got} offset {f.offset}; specification {want} offset {off2}"
+        off = f.offset
+    return None
+
+
+def bounded_finder(task, tier, seed):
+    """stand-in for the composition of the two VCs and for str.split/rstrip: every token list of length <= 3 (4 thorough) over 5
+    token values x nondecreasing lines 1..3, tags ['NOTE:'] / [], every nondecreasing query sequence of length <= 2 over lines 0..4"""
+    import itertools
+    t0 = time.time()
+    n = 0
+    L_ = 4 if tier != "quick" else 3
+    queries = [q for k in (1, 2) for q in itertools.product(range(0, 5), repeat=k) if list(q) == sorted(q)]
+    for tokens in finder_cases(L_):
+        for tags in (["NOTE:"], []):
+            for q in queries:
+                n += 1
+                bad = run_finder_case(tokens, tags, q)
+                if bad:
+                    return [Res("C39.comment_finder.bounded.case", "refuted", "native", time.time() - t0, bad, "bounded",
+                                {"tokens": [list(t) for t in tokens], "tags": tags, "queries": list(q)})]
+    task.stats = {"cases": n}
+    return [Res("C39.comment_finder.bounded", "bounded-ok", "native", time.time() - t0,
+                f"{n} (token list, tags, query sequence) cases: the real _CommentFinder equals the executable statement", "bounded")]
+
+
+def replay_finder(w):
+    if "tokens" in w:
+        bad = run_finder_case([tuple(t) for t in w["tokens"]], w["tags"], w["queries"])
+        return (bool(bad), bad or "agrees")
+    import itertools
+    queries = [q for k in (1, 2) for q in itertools.product(range(0, 5), repeat=k) if list(q) == sorted(q)]
+    for tokens in finder_cases(3):
+        for tags in (["NOTE:"], []):
+            for q in queries:
+                bad = run_finder_case(tokens, tags, q)
+                if bad:
+                    return (True, bad)
+    return (False, "the real _CommentFinder agrees with the executable statement on all small cases")
+
+
+# ====================================================================== C39.bounded.lex
+
+NSHARDS = 16
+
+
+def lex_case(ids, setting, fam="default"):
+    kw = RF.delimiter_families()[fam + "/trim=0,lstrip=0"]
+    key = (fam, setting)
+    if key not in _lex_envs:
+        _lex_envs[key] = (jinja2.Environment(**dict(kw, trim_blocks=setting[0], lstrip_blocks=setting[1])), X.tag_variants(X.delims_of(kw)))
+    env, tags = _lex_envs[key]
+    parts = X.skeleton(*ids, tags=tags)
+    src = X.source_of(parts)
+    wp = X.working_parts(parts)
+    stream, gaps = X.expected_stream(wp, setting[0], setting[1])
+    try:
+        toks = list(env.lex(src))
+    except Exception as ex:  # noqa
+        return src, f"<{type(ex).__name__}: {ex}>"
+    return src, X.check_token_stream(toks, X.source_of(wp), stream, gaps)
+
+
+_lex_envs = {}
+
+
+def bounded_lex(shard):
+    def run(task, tier, seed):
+        t0 = time.time()
+        n, out = 0, []
+        work = [("default", ids) for ids in X.corpus_sample(tier, seed, shard, NSHARDS)]
+        fams = ("asp", "dollar", "shared")
+        if shard < len(fams):
+            work += [(fams[shard], ids) for ids in X.family_sample(seed)]
+        for fam, ids in work:
+            for setting in X.SETTINGS:
+                src, bad = lex_case(ids, setting, fam)
+                n += 1
+                if bad and not out:
+                    out.append(Res(f"C39.bounded.lex[{shard}].case", "refuted", "native", time.time() - t0,
+                                   f"{fam} delimiters, {src!r} trim_blocks={setting[0]} lstrip_blocks={setting[1]}: {bad}", "bounded",
+                                   {"family": fam, "tags": list(ids[0]), "seps": list(ids[1]), "trim_blocks": setting[0], "lstrip_blocks": setting[1]}))
+        task.stats = {"sources_lexed": n}
+        if not out:
+            out.append(Res(f"C39.bounded.lex[{shard}]", "bounded-ok", "native", time.time() - t0,
+                           f"{n} sources through the real Environment.lex: values tile the working source minus the documented left-hand whitespace; "
+                           "every lineno equals a direct count", "bounded"))
+        return out
+    return run
+
+
+def replay_lex(w):
+    src, bad = lex_case((tuple(w["tags"]), tuple(w["seps"])), (w["trim_blocks"], w["lstrip_blocks"]), w.get("family", "default"))
+    return (bool(bad), f"{src!r}: {bad}")
+
+
+def bounded_tasks():
+    ts = []
+    for k in range(NSHARDS):
+        t = FnTask(PROP, f"C39.bounded.lex[{k}]", bounded_lex(k), kind="bounded", replay_fn=replay_lex)
+        t.bound_text = X.CORPUS_BOUND + f" (shard {k} of {NSHARDS})" + ("; plus " + X.FAMILY_BOUND if k < 3 else "")
+        ts.append(t)
+    return ts
+
+
+BODY_TASKS = loop_tasks(("lossless", "lineno"), "C39.tokeniter.body")
+# the line-number half alone (imported by C35: C35.lexer.lineno = C39.lineno)
+LINENO_TASKS = loop_tasks(("lineno",), "C39.lineno") + [LoopInit(None)]
+
+_finder_bounded = FnTask(PROP, "C39.comment_finder.bounded", bounded_finder, kind="bounded", replay_fn=replay_finder)
+_finder_bounded.bound_text = ("token lists of length <= 3 (thorough 4) over 5 token values x nondecreasing lines 1..3, comment tags ['NOTE:'] or [], "
+                              "nondecreasing query sequences of length <= 2 over lines 0..4")
+
+TASKS = (BODY_TASKS + [LoopInit(s) for s in (None, "root", "variable", "block", "bogus")] + [LoopEnd(), EnvLex(), FindComments(), FindBackwards(),
+         FnTask(PROP, "C39.tokeniter.frame", loop_frame, kind="table"), FnTask(PROP, "C39.states.closed", states_closed, kind="table"),
+         _finder_bounded]
+         + bounded_tasks())
+
+META = {
+    "level": "other",
+    "explanation": (
+        "Proof of mechanism under A8/A9 plus a bounded cross-check; not an end-to-end proof of the statement. The generator Lexer.tokeniter is "
+        "verified as straight-line segments of its REAL ast (located by structure): INIT (statements between the preamble and the loop), BODY "
+        "(the whole body of `for regex, tokens, new_state in statetokens`, symbolically executed once per distinct rule shape of the six "
+        "delimiter families and per matched branch of the root rule, with the rule's real tokens/new_state and an abstract match object "
+        "constrained by the regex facts of the rule's real pattern) and END (the for-else). Proved per iteration: the yielded values are, in "
+        "order, the groups of the match, only the text group of the two OptionalLStrip rules may lose a suffix, that suffix is whitespace and "
+        "is exactly what the C12 left-hand rules remove (lossless); every yielded token carries 1 + the number of line breaks of the working "
+        "source before its first character and `lineno == 1 + source[:pos].count(newline)`, `newlines_stripped == 0`, `pos += len(match)`, "
+        "`line_starting == the match ended a line` are preserved (lineno); the internal-error exits are unreachable; the loop returns only "
+        "with pos == len(source). Environment.lex is tokeniter(str(source)) with no preprocessing; _CommentFinder.find_comments/find_backwards "
+        "are proved with loop invariants over token lists of arbitrary length. NOT under VC: the state-stack discipline (stack / "
+        "self.rules / statetokens are abstracted), the order in which rules are tried and how far a match extends (A8: lazy text group, "
+        "ordered alternation). That deciding step is carried by the bounded stand-in C39.bounded.lex (the C12 skeleton corpus, also under "
+        "three custom delimiter sets, through the real Environment.lex against the C12 reference model and a direct line count), hence level "
+        "'other'."),
+    "assumptions": [
+        "A8: `re` semantics; re._parser describes the executed pattern; a match object satisfies source[pos:end] == group(), groups as parsed",
+        "A9: rule shapes are taken from the real lexers of the six delimiter families of pyvc.regexfacts.family (trim/lstrip/newline options do not change the shapes)",
+        "A7-like: the generator is driven to completion by its consumer (yield is a transparent event)",
+        "the state stack (`stack`, `self.rules[...]`, `statetokens`) is abstracted in the BODY VCs: no claim about which state follows; "
+        "C39.states.closed records the table fact it would need",
+        "str.count is additive over concatenation (instances at the cut positions used are assumed as part of its dependency spec)",
+    ],
+    "trusted_base": [
+        "z3 / cvc5 1.0.3 (--strings-exp)", "pyvc symbolic executor", "pyvc.regexfacts",
+        "dependency specs: str.rstrip / str.rfind / str.count (additivity instances) / Pattern.fullmatch / str.split(None, 1) and py_rstrip as "
+        "uninterpreted functions in the comment-finder VCs / enumerate / reversed over sequences of symbolic length",
+        "reference model contracts/_lex.py (reference_pieces / expected_stream), shared with C12",
+    ],
+}
